@@ -263,6 +263,8 @@ package atree
 //@   ensures[C02 C05] err == nil ==> (forall i :: 0 <= i && i < len(m.childrenHeaders) ==> mhdrBand(m.childrenHeaders[i]))
 //@   ensures[C02 C03 C08] err == nil ==> has(stored, m)
 //@   ensures[C18] err != nil ==> categorised(err) || true
+//@   # the routed child's header is copied into the parent before the child is examined for overflow / underflow (C05: index data agrees with the data it summarises)
+//@   before[C02 C05] MapDataSlab.IsFull: arg_recv == child && m.childrenHeaders[childHeaderIndex] == as(child, *MapDataSlab).header
 //@   modifies MapMetaDataSlab.childrenHeaders@inSub(m), MapMetaDataSlab.header@inSub(m), MapDataSlab.*@inSub(m),
 //@        hkeyElements.*@inSub(m), singleElements.*@inSub(m), singleElement.*@inSub(m), inlineCollisionGroup.*@inSub(m), externalCollisionGroup.*@inSub(m),
 //@        ghost.sto, ghost.issued, ghost.stored, ghost.touched, alloc
@@ -283,6 +285,8 @@ package atree
 //@   ensures[C09] err == nil ==> mAgree(m)
 //@   ensures[C02 C05] err == nil ==> (forall i :: 0 <= i && i < len(m.childrenHeaders) ==> mhdrBand(m.childrenHeaders[i]))
 //@   ensures[C02 C03 C08] err == nil ==> has(stored, m)
+//@   # the routed child's header is copied into the parent before the child is examined for overflow / underflow (C05: index data agrees with the data it summarises)
+//@   before[C02 C05] MapDataSlab.IsFull: arg_recv == child && m.childrenHeaders[childHeaderIndex] == as(child, *MapDataSlab).header
 //@   modifies MapMetaDataSlab.childrenHeaders@inSub(m), MapMetaDataSlab.header@inSub(m), MapDataSlab.*@inSub(m),
 //@        hkeyElements.*@inSub(m), singleElements.*@inSub(m), singleElement.*@inSub(m), inlineCollisionGroup.*@inSub(m), externalCollisionGroup.*@inSub(m),
 //@        ghost.refusals, ghost.sto, ghost.issued, ghost.stored, ghost.touched, alloc,
